@@ -109,7 +109,7 @@ std::string long_comment(Rng& rng)
     std::string s = "/*\n";
     int n = rng.range(20, 320);
     for (int i = 0; i < n; ++i)
-        s += " * line " + std::to_string(i) + " of a long header comment\n";
+        s += (i % 7 == 3) ? std::string{" *\n"} : " * line " + std::to_string(i) + " of a long header comment\n";
     s += " */\n";
     return s;
 }
